@@ -215,6 +215,12 @@ def check_effects(w):
                 else:
                     got = b''.join(x[2] for x in w.fs.special[t['path']])
                 if not t['expect'].startswith(got):
+                    # a stream has no offsets: the order in which writes were
+                    # released for it is the byte order of the object
+                    w.violation('C10', 'write-order',
+                                't%d stream destination was written out of the order in which '
+                                'its writes were released: %r' % (t['idx'], _short(got)),
+                                {'variant': 'stream'})
                     w.violation('C16', 'stream-order',
                                 't%d stream destination received %r which is not a prefix of the object %r'
                                 % (t['idx'], _short(got), _short(t['expect'])),
